@@ -86,6 +86,12 @@ const TARGETS: &[Target] = &[
     Target { name: "fb_try_from", file: "src/stream.rs", impl_trait: Some("TryFrom"), impl_self: Some("ForwardBounds"),
              func: "try_from", calls: &[("is_forward_only", "gen_ubl_is_forward_only"), ("into", "model_from_vec")], deps: &["ubl_is_forward_only"],
              imports: "Model.Scan Model.Regex Model.Opt Model.Stream Tie.RsOpt Tie.RsList", ret_muts: false, fuel: "" },
+    Target { name: "fill_regex", file: "src/cut_str.rs", impl_trait: None, impl_self: None,
+             func: "fill_with_fields_locations_using_regex", calls: &[], deps: &[],
+             imports: "Model.Scan Model.Regex Model.Opt Model.CutStr Tie.RsStr Tie.RsRegex", ret_muts: true, fuel: "" },
+    Target { name: "trim_regex", file: "src/cut_str.rs", impl_trait: None, impl_self: None,
+             func: "trim_regex", calls: &[], deps: &[],
+             imports: "Model.Scan Model.Regex Model.Opt Model.CutStr Tie.RsStr Tie.RsRegex", ret_muts: false, fuel: "" },
     Target { name: "maybe_replace", file: "src/cut_str.rs", impl_trait: None, impl_self: None,
              func: "maybe_replace_delimiter", calls: &[("replace_all", "rx_replace_all")], deps: &[],
              imports: "Model.Scan Model.Regex Model.Opt Model.CutStr Tie.RsRegex", ret_muts: false, fuel: "" },
@@ -96,7 +102,7 @@ const TARGETS: &[Target] = &[
 ];
 
 #[derive(Clone, PartialEq, Debug)]
-enum Ty { I32, Usize, Bool, Side, UB, UBL, Range, Opt(Box<Ty>), List(Box<Ty>), OptRec, FastRec, BType, Bytes, Byte, Str, Pair(Box<Ty>, Box<Ty>), Other }
+enum Ty { I32, Usize, Bool, Side, UB, UBL, Regex, Trim, Range, Opt(Box<Ty>), List(Box<Ty>), OptRec, FastRec, BType, Bytes, Byte, Str, Pair(Box<Ty>, Box<Ty>), Other }
 
 type R<T> = std::result::Result<T, String>;
 
@@ -250,7 +256,8 @@ fn ty_of_type(t: &Type) -> (String, Ty) {
                 "UserBoundsList" => ("ublist".into(), Ty::UBL),
                 "Opt" => ("opt".into(), Ty::OptRec),
                 "FastOpt" => ("gfopt".into(), Ty::FastRec),
-                "Trim" => ("trimk".into(), Ty::Other),
+                "Trim" => ("trimk".into(), Ty::Trim),
+                "Regex" => ("(rx * bool)%type".into(), Ty::Regex),
                 "u8" => ("byte".into(), Ty::Byte),
                 "str" | "String" => ("bytes".into(), Ty::Str),
                 "BoundOrFiller" => ("bof".into(), Ty::Other),
@@ -312,6 +319,7 @@ impl Cx {
             Expr::Index(ix) => match self.ty(&ix.expr) { Ty::List(t) => *t, Ty::Bytes => Ty::Byte, _ => Ty::Other },
             Expr::Path(p) if path_str(&p.path).starts_with("BoundsType::") => Ty::BType,
             Expr::Path(p) if path_str(&p.path).starts_with("Side::") => Ty::Side,
+            Expr::Path(p) if path_str(&p.path).starts_with("Trim::") => Ty::Trim,
             Expr::Call(c) if matches!(&*c.func, Expr::Path(p) if path_str(&p.path) == "Side::Some") => Ty::Side,
             Expr::Match(m) if !m.arms.is_empty() => { let t = self.ty(&m.arms[0].body); if t == Ty::Other && m.arms.len() > 1 { self.ty(&m.arms[1].body) } else { t } }
             Expr::Path(p) => { let s = path_str(&p.path); self.lookup(&s).unwrap_or(if unit_ctor(&s).map_or(false, |c| c == "true" || c == "false") { Ty::Bool } else { Ty::Other }) }
@@ -327,7 +335,11 @@ impl Cx {
                 "enumerate" => Ty::List(Box::new(Ty::Pair(Box::new(Ty::Usize), Box::new(match self.ty(&m.receiver) { Ty::List(t) => *t, _ => Ty::Other })))),
                 "len" => Ty::Usize,
                 "split_once" => Ty::Opt(Box::new(Ty::Pair(Box::new(Ty::Str), Box::new(Ty::Str)))),
+                "find_iter" if self.ty(&m.receiver) == Ty::Regex => Ty::List(Box::new(Ty::Range)),
                 "find_iter" => Ty::List(Box::new(Ty::Usize)),
+                "next" | "last" => match self.ty(&m.receiver) { Ty::List(t) => Ty::Opt(t), _ => Ty::Other },
+                "or" => self.ty(&m.receiver),
+                "start" | "end" if self.ty(&m.receiver) == Ty::Range => Ty::Usize,
                 "starts_with" | "ends_with" => Ty::Bool,
                 "find" => Ty::Opt(Box::new(Ty::Usize)),
                 "is_empty" => Ty::Bool,
@@ -424,7 +436,7 @@ impl Cx {
                     return self.pure(&m.receiver);
                 }
                 if name == "into" && matches!(self.ty(&m.receiver), Ty::Str | Ty::Byte) { return self.pure(&m.receiver); }
-                if ["expect", "unwrap", "collect", "map", "try_into", "into", "for_each", "any", "flat_map", "try_for_each", "write_all", "push", "clear", "extend"].contains(&name.as_str()) { return Ok(None); }
+                if ["expect", "unwrap", "collect", "map", "try_into", "into", "for_each", "any", "flat_map", "try_for_each", "write_all", "push", "clear", "extend", "next"].contains(&name.as_str()) { return Ok(None); }
                 let recv = match self.pure(&m.receiver)? { Some(x) => x, None => return Ok(None) };
                 let mut args = vec![];
                 for a in &m.args { match self.pure(a)? { Some(x) => args.push(x), None => return Ok(None) } }
@@ -438,7 +450,12 @@ impl Cx {
                     ("len", 0) => format!("(Z.of_nat (length {}))", recv),
                     ("is_empty", 0) if self.ty(&m.receiver) == Ty::UBL => format!("(match (items {}) with [] => true | _ => false end)", recv),
                     ("is_empty", 0) => format!("(match {} with [] => true | _ => false end)", recv),
+                    ("find_iter", 1) if self.ty(&m.receiver) == Ty::Regex => format!("(rx_find_iter_z {} {})", recv, args[0]),
                     ("find_iter", 1) => format!("(find_iter_z {} {})", args[0], recv),
+                    ("last", 0) if matches!(self.ty(&m.receiver), Ty::List(_)) => format!("(last_error {})", recv),
+                    ("or", 1) => format!("(match {} with Some v_ => Some v_ | None => {} end)", recv, args[0]),
+                    ("start", 0) if self.ty(&m.receiver) == Ty::Range => format!("(fst {})", recv),
+                    ("end", 0) if self.ty(&m.receiver) == Ty::Range => format!("(snd {})", recv),
                     ("starts_with", 1) => format!("(starts_with {} {})", args[0], recv),
                     ("ends_with", 1) => format!("(ends_with {} {})", args[0], recv),
                     ("as_slice", 0) => recv,
@@ -558,6 +575,8 @@ impl Cx {
             BinOp::Ne(_) if t == Ty::Str => format!("(negb (bytes_eqb {} {}))", l, r),
             BinOp::Eq(_) if t == Ty::BType => format!("(btype_eqb {} {})", l, r),
             BinOp::Ne(_) if t == Ty::BType => format!("(negb (btype_eqb {} {}))", l, r),
+            BinOp::Eq(_) if t == Ty::Trim => format!("(trimk_eqb {} {})", l, r),
+            BinOp::Ne(_) if t == Ty::Trim => format!("(negb (trimk_eqb {} {}))", l, r),
             BinOp::Eq(_) if t == Ty::Side => format!("(side_eqb {} {})", l, r),
             BinOp::Ne(_) if t == Ty::Side => format!("(negb (side_eqb {} {}))", l, r),
             _ => return Err(format!("operator on operands of type {:?}", t)),
@@ -753,6 +772,13 @@ impl Cx {
                 let c = self.coqname(&name);
                 let v = self.fresh("v");
                 self.tr(&m.args[0], &format!("(fun {} => (let {} := ({} ++ {}) in ({} tt)))", v, c, c, v, k))
+            }
+            Expr::MethodCall(m) if m.method == "next" && m.args.is_empty() && matches!(&*m.receiver, Expr::Path(p) if self.muts.contains(&path_str(&p.path)) && matches!(self.lookup(&path_str(&p.path)), Some(Ty::List(_)))) => {
+                // an iterator held in a `let mut`: its remaining elements; next() takes the first
+                let name = match &*m.receiver { Expr::Path(p) => path_str(&p.path), _ => unreachable!() };
+                let c = self.coqname(&name);
+                let v = self.fresh("v");
+                Ok(format!("(let {} := hd_error {} in (let {} := tl {} in ({} {})))", v, c, c, c, k, v))
             }
             Expr::MethodCall(m) if (m.method == "clear" || m.method == "push") && matches!(&*m.receiver, Expr::Path(p) if self.muts.contains(&path_str(&p.path))) => {
                 let name = match &*m.receiver { Expr::Path(p) => path_str(&p.path), _ => unreachable!() };
